@@ -34,3 +34,11 @@ claim("C20", "whole-module taint analysis over SSA with a prefix-refined sanitis
       "Decided for all passwords, loggers and sessions: no value labelled by Config.Pass / the Pass parameter reaches any argument of any call into package logging (all call sites in client and state are sinks), except through the one accepted sanitiser - the false edge of HasPrefix(v, C) when every tainted string's constant prefix begins with C; no Config/Conn value is logged; no other logging channel exists in the library.",
       "Trusted: go/ssa; aliasing is field/type/container-based; results of unknown external calls are tainted when an argument is, except listed payload-free I/O calls.",
       "DESIGN.md 5/C20")
+claim("C06", "exactly-once path rules, atomic test-and-clear under the connection mutex, write-after-refusal dominance (static analysis)",
+      "Decided for all fault moments and coincidences: one REGISTER dispatch, only under err == nil of the connect routine; DISCONNECTED only after the connected flag was tested and cleared under one uninterrupted hold of Conn.mu (so exactly one of any number of concurrent closers proceeds); the flag is set only under that mutex and no error return follows it; every queue-consuming / socket-using goroutine calls the teardown on every exit; every state write, tracker wipe and go statement of the connect routine comes after both refusals; Close on a disconnected client only unlocks.",
+      "Not decided: the REGISTER/DISCONNECTED order when the link drops during REGISTER (excluded by the property). Trusted: go/ssa, sync.RWMutex semantics.",
+      "DESIGN.md 5/C06")
+claim("C07", "blocking-operation census with release classes over the region Close waits for; stale-teardown typestate; WaitGroup accounting (static analysis)",
+      "Liveness is not decidable in general; decided is its release discipline for all backlogs and causes: every blocking operation executable by a goroutine that Close waits for (members before Done, awaited callees, built-in handlers, command API) is classified and must have a release that Close performs before waiting (context cancel, socket close, timer, inner join, drainer that outlives Wait, lock not held across Wait); no member calls the identity-less teardown after Done; queue consumers call the teardown on every exit; every successful connect makes fresh queues and wipes the tracker; Add/Done/spawn counts balance on every path. Four stale-Close sites (finding F12) are listed in known_findings.json.",
+      "Assumes opaque user handlers return when library calls return and that listed library calls (logging, fmt, strings, SASL) do not block. No numeric time bound is claimed.",
+      "DESIGN.md 5/C07")
